@@ -417,6 +417,10 @@ pub struct WriterSched {
     /// at byte b, 3 WouldBlock at call c
     pub hard: u8,
     pub hard_at: u64,
+    /// the sink implements `write_vectored` itself and may stop anywhere
+    /// across the offered buffers
+    #[serde(default)]
+    pub vectored: bool,
 }
 
 #[derive(Debug)]
@@ -428,6 +432,7 @@ pub struct SimWriter {
     pub short_writes: u64,
     pub interrupts: u64,
     pub flushes: u64,
+    pub vectored_calls: u64,
     pub hard_fired: bool,
     burst: u32,
     pub dig: Dig,
@@ -444,6 +449,7 @@ impl SimWriter {
             short_writes: 0,
             interrupts: 0,
             flushes: 0,
+            vectored_calls: 0,
             hard_fired: false,
             burst: 0,
             dig: Dig::new(),
@@ -516,6 +522,39 @@ impl io::Write for SimWriter {
         }
         self.accepted.extend_from_slice(&buf[..n]);
         self.dig.add_all(&[3, call, buf.len() as u64, n as u64]);
+        Ok(n)
+    }
+
+    /// A sink that implements vectored writes itself (like a pipe or socket):
+    /// it may accept any number of bytes across the offered buffers.
+    fn write_vectored(&mut self, bufs: &[io::IoSlice<'_>]) -> io::Result<usize> {
+        let total: usize = bufs.iter().map(|b| b.len()).sum();
+        if !self.sched.vectored || total == 0 || self.sched.hard != 0 {
+            // std's default: the first non-empty buffer only
+            let buf = bufs.iter().find(|b| !b.is_empty()).map_or(&[][..], |b| &**b);
+            return io::Write::write(self, buf);
+        }
+        let call = self.calls;
+        self.calls += 1;
+        if self.maybe_interrupt() {
+            self.dig.add_all(&[4, call, total as u64]);
+            return Err(io::Error::new(io::ErrorKind::Interrupted, "sim: EINTR"));
+        }
+        let n = if self.rng.chance(1, 4) { total } else { 1 + self.rng.usize(total) };
+        if n < total {
+            self.short_writes += 1;
+        }
+        let mut left = n;
+        for b in bufs {
+            let take = left.min(b.len());
+            self.accepted.extend_from_slice(&b[..take]);
+            left -= take;
+            if left == 0 {
+                break;
+            }
+        }
+        self.vectored_calls += 1;
+        self.dig.add_all(&[5, call, total as u64, n as u64]);
         Ok(n)
     }
 
